@@ -207,6 +207,10 @@ class Gen:
         elif k == "ENUMERATED":
             n = r.choice([1, 2, 3, 4, 8, 9])
             names = [self.ident("e") for _ in range(n)]
+            if n >= 2 and r.random() < 0.3:      # identifiers that are proper prefixes of one another (name lookup by bsearch/strcmp)
+                base = names[0]
+                names = [base] + [base + suf for suf in r.sample(["x", "xy", "Hold", "HoldOn", "a", "ab", "z", "0", "00"], n - 1)]
+                r.shuffle(names)
             if r.random() < 0.5 or not self.avoid.enum_mixed_numbering:
                 t["items"] = [(nm, None) for nm in names]
             else:
@@ -606,6 +610,11 @@ def boundary_module(rng, quick=True):
     types.append(("BExtC", T("CHOICE", comps=[{"id": "a", "type": T("NULL", tag=("ctx", 0, ""))},
                                               {"id": "x", "type": T("OCTET STRING", size=None, tag=("ctx", 1, ""))}], ext=1)))
     osz = [0, 1, 125, 126, 127, 16381, 16382, 16383, 32765, 32766, 49149, 65532, 65533]
+    # ENUMERATED identifiers that are proper prefixes of one another (XER name lookup)
+    types.append(("BEnP", T("ENUMERATED", items=[(n, None) for n in ("off", "on", "onHold", "o", "onHoldLonger", "offline", "onH")])))
+    vals["BEnP"] = list(range(7))
+    types.append(("BEnPS", T("SEQUENCE OF", elem=T("ENUMERATED", items=[(n, None) for n in ("b", "a", "ab", "abc", "ba")]), size=None)))
+    vals["BEnPS"] = [[0, 1, 2, 3, 4], [3, 2, 1], []]
     # SIZE upper bounds around 64K (X.691 10.9.4.1: ub >= 64K means the length is a general length determinant)
     for i, (lo, hi) in enumerate([(1, 65536), (65536, 65536), (0, 65535), (65535, 65535), (1, 65535), (0, 65536), (65535, 65536), (0, 65537)]):
         types.append((f"BSzO{i}", T("OCTET STRING", size=cons(lo, hi))))
